@@ -77,6 +77,9 @@ pub fn read_cases(path: &str) -> Vec<Value> {
 
 /// Silence the default panic message (panics of the code under test are data, DESIGN §2).
 pub fn quiet_panics() {
+    if std::env::var("VERIF_SHOW_PANICS").is_ok() {
+        return;
+    }
     std::panic::set_hook(Box::new(|_| {}));
 }
 
